@@ -45,6 +45,9 @@ CHECKS = {
  "C13": (EX, "bounded exhaustive enumeration over a lat-lon alphabet (poles, date line, antipodes, out-of-range longitudes) x geo_scale x temporal / time anisotropy against spherical trigonometry; covariance read back from kriging and SRF; rotation group of the cube on the sphere; space-time decoupling",
          "All points and all pairs of the alphabet are pushed through the sphere embedding and its inverse, the chordal / great-circle maps, a one-point simple kriging and the SRF mode sum (covariance actually used == Yadrenko covariance of the atan2 great-circle distance), fitting at great-circle lags, standard bins in every unit; kriging and the estimator are repeated under the 24 cube rotations and generic rotations of the sphere; spatio-temporal models are checked for every angle-vector length (zeroed space-time angles), metric space-time kriging against the dense oracle and the SRF structure.",
          "finite lat-lon / scale / anisotropy alphabets; universal kriging excluded from rotation invariance (drifts are functions of lat, lon)", "5/C13"),
+ "C10": (EX, "exhaustive enumeration of the parameter-selection space of fit_variogram (every vector in {fitted, deselected, fixed}^k x sill mode) plus option products, on noise-free data from the reference closed forms, with constraint invariants and identifiability-gated recovery",
+         "For 9 model classes (quick) every selection vector over var / len_scale / nugget / optional arguments, three sill modes, dims 1-3 and lat-lon is fitted from a near-truth start; checked: deselected and fixed parameters untouched (incl. TPL variance), fitted values in bounds, prescribed sill met to 1e-12, returned dictionary == model state, second call a fixed point, r2 -> 1 and (where the Jacobian at the truth is well conditioned) recovery of the generating parameters; option product weights x init_guess x method x loss x custom bounds; directional data with anisotropy fitted / deselected / fixed; error paths leave the model unchanged.",
+         "noise-free data, near-truth start; recovery only demanded for cond(J) < 1e6; requests without a free parameter skipped (counted)", "5/C10"),
 }
 PENDING = {}
 def main():
